@@ -221,6 +221,12 @@ func deepCopy(src *lazyNode, options *ApplyOptions) (*lazyNode, int, error) {
 	if err != nil {
 		return nil, 0, err
 	}
+	// The duplicate is read back by the decoder that skips validation. Operations
+	// can nest a document deeper than that decoder accepts; refuse to duplicate it
+	// rather than let the decoder run off the end of the text.
+	if !json.Valid(a) {
+		return nil, 0, fmt.Errorf("value is nested too deeply to be duplicated: %w", ErrInvalid)
+	}
 	sz := len(a)
 	return newLazyNode(newRawMessage(a)), sz, nil
 }
